@@ -132,7 +132,7 @@ func buildC02(cfg *mon.Config) []*mon.Sub {
 		Exec: c02Exec,
 	}
 	mut := &mon.Sub{
-		Name: "mutated-valid-expressions", Rule: "seeded valid expressions from the C01 generators (depth <= 5), printed minimally, then mutated at token level (insert, delete, replace, swap, duplicate; 1-2 mutations) with tokens of the full vocabulary plus <>, <=, >>, %, /, OR, XOR, f, 2.5; " + oracle + "; distinct by hash",
+		Name: "mutated-valid-expressions", Rule: "seeded valid expressions from the C01 generators (depth <= 5), printed minimally, then mutated at token level (insert, delete, replace, swap, duplicate one token; repeat in place, remove or move a run of 2-5 tokens; 1-2 mutations) with tokens of the full vocabulary plus <>, <=, >>, %, /, OR, XOR, f, 2.5; " + oracle + "; distinct by hash",
 		Floor: 1000,
 		Gen: func(emit func(string)) {
 			r := cfg.Rng("c02-mutation")
@@ -149,7 +149,23 @@ func buildC02(cfg *mon.Config) []*mon.Sub {
 				if i%10 != 0 { // every tenth stays valid
 					for m := 1 + r.Intn(2); m > 0 && len(toks) > 0; m-- {
 						k := r.Intn(len(toks))
-						switch r.Intn(5) {
+						switch r.Intn(8) {
+						case 5, 6, 7: // a whole run of tokens is repeated in place, removed, or moved (e.g. a second index, a second argument list, a second postfix test)
+							n := 2 + r.Intn(4)
+							if k+n > len(toks) {
+								n = len(toks) - k
+							}
+							seg := append([]string{}, toks[k:k+n]...)
+							switch r.Intn(3) {
+							case 0:
+								toks = append(append(append([]string{}, toks[:k+n]...), seg...), toks[k+n:]...)
+							case 1:
+								toks = append(append([]string{}, toks[:k]...), toks[k+n:]...)
+							default:
+								rest := append(append([]string{}, toks[:k]...), toks[k+n:]...)
+								j := r.Intn(len(rest) + 1)
+								toks = append(append(append([]string{}, rest[:j]...), seg...), rest[j:]...)
+							}
 						case 0:
 							toks = append(toks[:k], append([]string{mon.Pick(r, extra)}, toks[k:]...)...)
 						case 1:
